@@ -139,6 +139,21 @@ def entries():
     return L
 
 
+def thorough_entries():
+    """generated depth-2 compositions (container form x leaf type), with independent v and w"""
+    from harness.skeletons import _Cont, _Leaf
+    out = []
+    for f in ("typed", "head", "tail", "body", "dreq", "dopt", "any"):
+        for lf in ("int", "intmax", "str", "alpha", "bool", "none", "bytes", "intval"):
+            node = _Cont(f, _Leaf(lf), "c")
+            sp, sparams, spre = node.spec()
+            ve, vparams, vpre = node.value("v")
+            we, wparams, wpre = node.value("w")
+            out.append(e("gen2.%s.%s" % (f, lf), ", ".join(sparams + vparams + wparams), sp, ve, we, pre=spre + vpre + wpre,
+                         timeout=120, tier="thorough", covers=("subst",), chars=(lf in ("str", "alpha"))))
+    return out
+
+
 HEAD = """
 PLAIN = {plain}
 spec = {spec}
@@ -158,7 +173,7 @@ except SubstitutionError:
 def harnesses_for(prop, post, cover_map=None):
     def harnesses(tier, seed, active_kf=()):
         out = []
-        for en in entries():
+        for en in entries() + (thorough_entries() if tier == "thorough" else []):
             if en["tier"] == "thorough" and tier != "thorough":
                 continue
             if en["only"] and prop not in en["only"]:
